@@ -130,6 +130,11 @@ func main() {
 	rng = rand.New(rand.NewSource(seed))
 	out = bufio.NewWriterSize(os.Stdout, 1<<20)
 	defer out.Flush()
+	if os.Args[1] == "sites" {
+		out.Flush()
+		genSites()
+		return
+	}
 	if os.Args[1] == "facts" {
 		out.Flush()
 		genFacts()
